@@ -202,6 +202,50 @@ func init() {
 		}
 	}
 
+	// dict observations in scripts after arbitrary ValueMap histories: two maps are driven through op sequences (promotions,
+	// expunged entries, deleted-and-restored keys), wrapped as dict values a and b, and the script-level `a == b`, `a.len()`,
+	// truthiness are compared (by the caller) with what plain maps give
+	cmds["c12-eq"] = func(args []string) {
+		sc := bufio.NewScanner(os.Stdin)
+		sc.Buffer(make([]byte, 1<<20), 1<<26)
+		for sc.Scan() {
+			var in struct {
+				A []vmOp `json:"a"`
+				B []vmOp `json:"b"`
+			}
+			if err := json.Unmarshal(sc.Bytes(), &in); err != nil {
+				continue
+			}
+			ma, mb := &ds.ValueMap{}, &ds.ValueMap{}
+			for _, o := range in.A {
+				applyOp(ma, o)
+			}
+			for _, o := range in.B {
+				applyOp(mb, o)
+			}
+			vm := ds.NewVM()
+			vm.Config.OpCountLimit = 30000
+			vm.Attrs.Store("a", (*ds.VMValue)(ds.NewDictVal(ma)))
+			vm.Attrs.Store("b", (*ds.VMValue)(ds.NewDictVal(mb)))
+			row := map[string]any{}
+			for _, q := range []string{"a == b", "b == a", "a != b", "a.len()", "b.len()", "a ? 1 : 0", "[a] == [b]"} {
+				func() {
+					defer func() {
+						if r := recover(); r != nil {
+							row[q] = "panic: " + fmt.Sprint(r)
+						}
+					}()
+					if err := vm.Run(q); err != nil {
+						row[q] = "error: " + err.Error()
+					} else {
+						row[q] = vm.Ret.ToString()
+					}
+				}()
+			}
+			emit(row)
+		}
+	}
+
 	// demonstration for the recorded finding "Range / Length are not atomic snapshots": a writer keeps the invariant
 	// "key k2 is live whenever key k1 is not" (Store k2; Delete k1; Store k1; Delete k2; ...), so every state the map
 	// is ever in has at least one live key; a concurrent Range that visits nothing (or Length 0) saw no such state
